@@ -61,7 +61,7 @@ ACTIONS = [
     (r"^self\.run\(\)$", 'Call F_appresponse_run'),
     (r"^request, resp = self\.cpapp\.get_serving\(", 'Call F_get_serving'),
     (r"^request\.run\(meth, path, qs, rproto, headers, rfile\)$", 'Call F_request_run'),
-    (r"^self\.close\(\)$", 'Call F_appresponse_close'),
+    (r"^self\.close\(\)$", 'Call F_appresponse_close_init'),      # only in AppResponse.__init__'s except clause
     (r"^self\.cpapp\.release_serving\(\)$", 'Call F_release_serving'),
     (r"^self\.iter_response = iter\(r\.body\)$", 'Act IterBody'),
     (r"^self\.write = start_response\(outstatus, outheaders\)$", 'Act StartResponse'),
@@ -111,7 +111,7 @@ CONDS = [
     (r"^self\.app is None$", 'CFlag FAppNone'),
     (r"^not self\.recursive$", 'CNot (CFlag FRecursive)'),
     (r"^new_uri in redirections$", 'CFlag FVisitedBefore'),
-    (r"^streaming and is_closable_iterator\(self\.iter_response\)$", 'CFlag FStreaming'),
+    (r"^streaming and is_closable_iterator\(self\.iter_response\)$", 'CFlag FStreaming'),   # see Translator.stmt (If)
     (r"^True$", 'CTrue'),
     (r"^not isinstance\(outstatus, bytes\)$", 'CNot (CFlag FStatusIsBytes)'),
     (r"^not isinstance\(k, bytes\)$", 'CNot (CFlag FHeaderKeyIsBytes)'),
@@ -157,9 +157,10 @@ def _pure(node):
 
 
 class Translator:
-    def __init__(self, text, trapper=False):
+    def __init__(self, text, trapper=False, in_init=False):
         self.text = text
         self.trapper = trapper
+        self.in_init = in_init      # AppResponse.close as called from __init__: self.iter_response may be unset
         self.unknown = []
 
     def simple(self, node):
@@ -224,6 +225,10 @@ class Translator:
         if isinstance(st, ast.If):
             c = self.cond(st.test)
             a, b = self.block(st.body), self.block(st.orelse)
+            if self.in_init and 'self.iter_response' in _src(st.test, self.text):
+                if c != 'CFlag FStreaming':
+                    raise Unsupported('condition reading self.iter_response: %s' % _src(st.test, self.text))
+                a = 'Seq (Act ReadIterResponse) (%s)' % a
             if c == 'CTrue':
                 return None if a == 'Skip' else a
             if a == 'Skip' and b == 'Skip':
@@ -272,11 +277,11 @@ def find_function(tree, qualname):
     return node
 
 
-def translate(repo, relpath, qualname):
+def translate(repo, relpath, qualname, in_init=False):
     text = open(os.path.join(repo, relpath)).read()
     tree = ast.parse(text)
     fn = find_function(tree, qualname)
-    tr = Translator(text, trapper=qualname.startswith('_TrappedResponse'))
+    tr = Translator(text, trapper=qualname.startswith('_TrappedResponse'), in_init=in_init)
     return tr.block(fn.body), tr.unknown
 
 
@@ -290,6 +295,7 @@ FUNCTIONS = [
     ('release_serving', 'cherrypy/_cptree.py', 'Application.release_serving'),
     ('appresponse_init', 'cherrypy/_cpwsgi.py', 'AppResponse.__init__'),
     ('appresponse_close', 'cherrypy/_cpwsgi.py', 'AppResponse.close'),
+    ('appresponse_close_init', 'cherrypy/_cpwsgi.py', 'AppResponse.close'),     # translated with in_init=True
     ('appresponse_run', 'cherrypy/_cpwsgi.py', 'AppResponse.run'),
     ('redirector_call', 'cherrypy/_cpwsgi.py', 'InternalRedirector.__call__'),
     ('trap', 'cherrypy/_cpwsgi.py', '_TrappedResponse.trap'),
@@ -305,7 +311,7 @@ def generate(repo):
              'From CV Require Import Model.M_flow.', '']
     unknown = {}
     for name, rel, q in FUNCTIONS:
-        term, unk = translate(repo, rel, q)
+        term, unk = translate(repo, rel, q, in_init=name.endswith('_init') and q == 'AppResponse.close')
         unknown[name] = unk
         lines.append('Definition G_%s : stmt :=\n  %s.\n' % (name, term))
     return '\n'.join(lines), unknown
